@@ -1624,4 +1624,215 @@ theorem pmcLines_stripped : ∀ (rest cur : List Char), oneTrail cur rest = true
     · simp only [hc, if_false] at h ⊢
       exact pmcLines_stripped rest (cur ++ [c]) h
 
+/-! ## close_block -/
+
+/-- `v` is `v0` after the pieces `out` were pushed; `block_indent` may have changed. -/
+structure Pushed (v0 v : Vis) (out : List Piece) : Prop where
+  buffer : v.buffer = v0.buffer ++ render out
+  log : v.log = v0.log ++ out
+
+theorem Pushed.refl (v : Vis) : Pushed v v [] := ⟨by simp [render], by simp⟩
+
+theorem Pushed.push {v0 v : Vis} {out : List Piece} (h : Pushed v0 v out) (t : Tag) (s : List Char) :
+    Pushed v0 (v.push t s) (out ++ [⟨t, s⟩]) :=
+  ⟨by simp [Vis.push, h.buffer, render_append, render_single], by simp [Vis.push, h.log]⟩
+
+theorem Pushed.setIndent {v0 v : Vis} {out : List Piece} (h : Pushed v0 v out) (i : Indent) :
+    Pushed v0 { v with blockIndent := i } out := ⟨h.buffer, h.log⟩
+
+theorem pushed_foldl {v0 v : Vis} {out : List Piece} (h : Pushed v0 v out) : ∀ (post : List Piece),
+    Pushed v0 (post.foldl (fun v q => v.push q.tag q.text) v) (out ++ post) := by
+  intro post
+  induction post generalizing v out with
+  | nil => simpa using h
+  | cons x post ih =>
+    have := ih (h.push x.tag x.text)
+    simpa [List.append_assoc] using this
+
+theorem blockUnindent_ok (env : Env) (i : Indent) : ∃ j, blockUnindent? env i = some j := by
+  unfold blockUnindent?
+  rw [RF.Lemmas.Shape.block_unindent_ok]
+  exact ⟨_, rfl⟩
+
+theorem cbUnindent_spec (env : Env) (un al : Bool) (cs : CbState) (v0 v : Vis) (out : List Piece)
+    (h : Pushed v0 v out) :
+    ∃ u v1, cbUnindent env un al cs v = some (u, v1) ∧ Pushed v0 v1 out := by
+  unfold cbUnindent
+  split
+  · obtain ⟨j, hj⟩ := blockUnindent_ok env v.blockIndent
+    rw [hj]
+    exact ⟨true, _, rfl, h.setIndent j⟩
+  · exact ⟨_, v, rfl, h⟩
+
+theorem cbOldHead_spec (env : Env) (hind : IndentOk env.config) (between : List Char)
+    (sameLine extraNl : Bool) (shape0 : Shape) (v : Vis) :
+    ∃ pre sh, cbOldHead env between sameLine extraNl shape0 v =
+        some (pre.foldl (fun v q => v.push q.tag q.text) v, sh) ∧ BlankPieces pre := by
+  have hsp : BlankPieces [⟨.blank, [' ']⟩] := BlankPieces.single (allWs_single isWs_space)
+  have hnl : BlankPieces [⟨.blank, ['\n']⟩] := BlankPieces.single (allWs_single isWs_nl)
+  unfold cbOldHead
+  generalize (if sameLine = true then
+      match (shape0.visual_indent (1 + (lastLineWidth env v.buffer - v.blockIndent.width))).sub_width_opt
+          (1 + (lastLineWidth env v.buffer - v.blockIndent.width)) with
+      | some shp => (true, shp)
+      | none => (false, shape0)
+    else (false, shape0)) = pr
+  obtain ⟨sl, sh⟩ := pr
+  simp only
+  cases sl with
+  | true => exact ⟨[⟨.blank, [' ']⟩], sh, rfl, hsp⟩
+  | false =>
+    simp only [Bool.false_eq_true, if_false]
+    split
+    · obtain ⟨nl, h1, h2⟩ := indentNl_ok env hind (v.push .blank ['\n']).blockIndent
+      rw [h1]
+      exact ⟨[⟨.blank, ['\n']⟩, ⟨.blank, nl⟩], sh, rfl, hnl.append (BlankPieces.single h2)⟩
+    · obtain ⟨nl, h1, h2⟩ := indentNl_ok env hind v.blockIndent
+      rw [h1]
+      exact ⟨[⟨.blank, nl⟩], sh, rfl, BlankPieces.single h2⟩
+
+/-- The `Comment` arm of `close_block`'s loop on the comment slice `sub` that follows `done`; `last_hi`
+is the end of a prefix of `done`. -/
+theorem cbComment_spec (env : Env) (hind : IndentOk env.config) (snippet done sub tail : List Char)
+    (hs : snippet = done ++ sub ++ tail) (un al : Bool) (cs : CbState) (v0 v : Vis) (out : List Piece)
+    (hhi : ∃ a b, done = a ++ b ∧ cs.lastHi = utf8Len a) (hp : Pushed v0 v out) :
+    ∃ cs' v' o, cbComment env snippet un al (utf8Len done) sub cs v = some (cs', v') ∧
+      Pushed v0 v' (out ++ o) ∧ cs'.lastHi = utf8Len (done ++ sub) ∧ CommentOut env sub o := by
+  obtain ⟨u, v1, hun, hp1⟩ := cbUnindent_spec env un al cs v0 v out hp
+  obtain ⟨a, b, hd, hlast⟩ := hhi
+  have hsl : sliceBytes? snippet cs.lastHi (utf8Len done) = some b := by
+    apply sliceBytes_of_split snippet a b (sub ++ tail)
+    · rw [hs, hd]; simp [List.append_assoc]
+    · exact hlast
+    · rw [hd, utf8Len_append]
+  unfold cbComment
+  rw [hun]; simp only
+  rw [hsl]; simp only
+  by_cases h24 : (env.ed2024 && !(b.contains '\n')) = true
+  · rw [if_pos h24]
+    have hed : env.ed2024 = true := by simp at h24; exact h24.1
+    obtain ⟨mid, hmid, hcm⟩ := commentLines_spec env hind sub (v1.push .blank [' ']) v1.blockIndent
+      ((Shape.indented v1.blockIndent env.config).comment env.config) true (fun _ => hed)
+    rw [hmid]
+    refine ⟨_, _, [⟨.blank, [' ']⟩] ++ mid, rfl, ?_, by simp [utf8Len_append],
+      ⟨[⟨.blank, [' ']⟩], mid, [], by simp, BlankPieces.single (allWs_single isWs_space), hcm,
+        BlankPieces.nil⟩⟩
+    have := pushed_foldl (hp1.push .blank [' ']) mid
+    simpa [List.append_assoc] using this
+  · rw [if_neg h24]
+    obtain ⟨pre, sh, hhead, hpre⟩ := cbOldHead_spec env hind b (!(b.contains '\n')) cs.extraNl
+      ((Shape.indented v1.blockIndent env.config).comment env.config) v1
+    rw [hhead]; simp only
+    obtain ⟨mid, hmid, hcm⟩ := commentLines_spec env hind sub
+      (pre.foldl (fun v q => v.push q.tag q.text) v1)
+      (pre.foldl (fun v q => v.push q.tag q.text) v1).blockIndent sh false (by intro h; cases h)
+    rw [hmid]
+    refine ⟨_, _, pre ++ mid, rfl, ?_, by simp [utf8Len_append], ⟨pre, mid, [], by simp, hpre, hcm,
+      BlankPieces.nil⟩⟩
+    have := pushed_foldl (pushed_foldl hp1 pre) mid
+    simpa [List.append_assoc] using this
+
+/-- The non-blank characters `close_block` owes for one slice. -/
+def sliceContent (s : Slice) : List Char :=
+  if s.kind == .comment then squeeze s.text else if skipNormal s.text then [] else squeeze s.text
+
+theorem CommentOut.content {env : Env} {sub : List Char} {o : List Piece} (hrc : RcContent env.rc)
+    (h : CommentOut env sub o) : squeeze (render o) = squeeze sub := by
+  obtain ⟨pre, mid, post, rfl, hpre, hmid, hpost⟩ := h
+  rw [render_append, render_append, squeeze_append, squeeze_append, hpre.content, hpost.content,
+    hmid.content hrc]
+  simp
+
+/-- The loop of `close_block`. -/
+theorem cbLoop_spec (env : Env) (hind : IndentOk env.config) (snippet : List Char) (un al : Bool)
+    (v0 : Vis) : ∀ (items : List Slice) (done : List Char) (cs : CbState) (v : Vis) (out : List Piece),
+    snippet = done ++ items.flatMap (·.text) → Contiguous (utf8Len done) items →
+    (∃ a b, done = a ++ b ∧ cs.lastHi = utf8Len a) → Pushed v0 v out →
+    ∃ cs' v' o, cbLoop env snippet un al items cs v = some (cs', v') ∧ Pushed v0 v' (out ++ o) ∧
+      (RcContent env.rc → squeeze (render o) = (items.map sliceContent).flatten)
+  | [], _, cs, v, out, _, _, _, hp => ⟨cs, v, [], rfl, by simpa using hp, fun _ => rfl⟩
+  | sl :: rest, done, cs, v, out, hs, hcont, hhi, hp => by
+    obtain ⟨hstart, hcont'⟩ := hcont
+    have hs' : snippet = done ++ sl.text ++ rest.flatMap (·.text) := by
+      rw [hs]; simp [List.append_assoc]
+    -- one step
+    have hstep : ∃ cs1 v1 o1, cbStep env snippet un al sl cs v = some (cs1, v1) ∧
+        Pushed v0 v1 (out ++ o1) ∧ (∃ a b, done ++ sl.text = a ++ b ∧ cs1.lastHi = utf8Len a) ∧
+        (RcContent env.rc → squeeze (render o1) = sliceContent sl) := by
+      unfold cbStep
+      by_cases hk : sl.kind = .comment
+      · rw [if_pos hk, hstart]
+        obtain ⟨cs1, v1, o1, hrun, hp1, hhi1, hout⟩ :=
+          cbComment_spec env hind snippet done sl.text (rest.flatMap (·.text)) hs' un al cs v0 v out hhi hp
+        refine ⟨cs1, v1, o1, hrun, hp1, ⟨done ++ sl.text, [], by simp, hhi1⟩, ?_⟩
+        intro hrc
+        rw [hout.content hrc]; simp [sliceContent, hk]
+      · rw [if_neg hk]
+        have hkb : (sl.kind == CodeCharKind.comment) = false := by simpa using hk
+        by_cases hskip : skipNormal sl.text = true
+        · rw [if_pos hskip]
+          obtain ⟨a, b, hd, hl⟩ := hhi
+          refine ⟨_, v, [], rfl, by simpa using hp, ⟨a, b ++ sl.text, by rw [hd]; simp, hl⟩, ?_⟩
+          intro _; simp [sliceContent, hkb, hskip, render, squeeze_nil]
+        · rw [if_neg hskip]
+          obtain ⟨nl, h1, h2⟩ := indentNl_ok env hind v.blockIndent
+          rw [h1]
+          refine ⟨_, _, [⟨.blank, nl⟩, ⟨.code, trim sl.text⟩], rfl, ?_,
+            ⟨done ++ sl.text, [], by simp, by simp [hstart, utf8Len_append]⟩, ?_⟩
+          · have := (hp.push .blank nl).push .code (trim sl.text)
+            simpa [List.append_assoc] using this
+          · intro _
+            simp only [render, List.flatMap_cons, List.flatMap_nil, List.append_nil, squeeze_append,
+              squeeze_of_allWs h2, squeeze_trim, List.nil_append, sliceContent, hkb]
+            simp [hskip]
+    obtain ⟨cs1, v1, o1, hrun, hp1, hhi1, hc1⟩ := hstep
+    obtain ⟨cs', v', o, hrun', hp', hc'⟩ :=
+      cbLoop_spec env hind snippet un al v0 rest (done ++ sl.text) cs1 v1 (out ++ o1)
+        (by rw [hs]; simp [List.append_assoc]) (by rw [utf8Len_append]; exact hcont') hhi1 hp1
+    refine ⟨cs', v', o1 ++ o, ?_, by simpa [List.append_assoc] using hp', ?_⟩
+    · simp only [cbLoop, hrun]; exact hrun'
+    · intro hrc
+      rw [render_append, squeeze_append, hc1 hrc, hc' hrc]; simp
+
+/-- `close_block` on a valid span: no panic; the buffer grows by pieces whose non-blank characters are
+`closeContent snippet`. -/
+theorem closeBlock_spec (env : Env) (hind : IndentOk env.config) (pre snippet post : List Char)
+    (hbig : env.big = pre ++ snippet ++ post) (un : Bool) (v : Vis) :
+    ∃ v' o, closeBlock env (utf8Len pre) (utf8Len pre + utf8Len snippet) un v = some v' ∧
+      Pushed v v' o ∧ (RcContent env.rc → squeeze (render o) = closeContent snippet) := by
+  unfold closeBlock
+  have hle : utf8Len pre ≤ utf8Len pre + utf8Len snippet := by omega
+  have hsl : sliceBytes? env.big (min (utf8Len pre) (utf8Len pre + utf8Len snippet))
+      (max (utf8Len pre) (utf8Len pre + utf8Len snippet)) = some snippet := by
+    rw [Nat.min_eq_left hle, Nat.max_eq_right hle]
+    exact sliceBytes_of_split env.big pre snippet post _ _ hbig rfl rfl
+  rw [hsl]; simp only
+  obtain ⟨items, hitems, hcat, _, hcont⟩ := slices_spec snippet
+  rw [hitems]; simp only
+  generalize (if (un && containsComment snippet) = true then
+      decide (lastLineWidth env (List.takeWhile (fun x => x != '/') snippet) > lastLineWidth env snippet)
+    else false) = al
+  obtain ⟨cs, v1, o1, hrun, hp1, hc1⟩ :=
+    cbLoop_spec env hind snippet un al v items [] ⟨0, false, false, false⟩ v [] (by simp [hcat])
+      (by simpa [utf8Len] using hcont) ⟨[], [], rfl, rfl⟩ (Pushed.refl v)
+  rw [hrun]; simp only
+  obtain ⟨j, hj⟩ := blockUnindent_ok env
+    (if cs.unindented = true then v1.blockIndent.blockIndent env.config else v1.blockIndent)
+  rw [hj]; simp only
+  obtain ⟨nl, h1, h2⟩ := indentNl_ok env hind j
+  rw [h1]
+  refine ⟨_, o1 ++ [⟨.blank, nl⟩, ⟨.code, ['}']⟩], rfl, ?_, ?_⟩
+  · have := ((hp1.setIndent j).push .blank nl).push .code ['}']
+    simpa [List.append_assoc] using this
+  · intro hrc
+    rw [render_append, squeeze_append, hc1 hrc]
+    unfold closeContent
+    rw [hitems]
+    simp only [render, List.flatMap_cons, List.flatMap_nil, List.append_nil, squeeze_append,
+      squeeze_of_allWs h2, List.nil_append]
+    have : (List.map sliceContent items) = List.map (fun s => if (s.kind == CodeCharKind.comment) = true
+        then squeeze s.text else if skipNormal s.text = true then [] else squeeze s.text) items := by
+      apply List.map_congr_left; intro s _; rfl
+    rw [this]; rfl
+
 end RF.Lemmas.Missed
